@@ -417,7 +417,51 @@ pub fn gen_case(t: &mut Tape, forms: &[Form], o: &GenOpts) -> Option<NCase> {
         }
         // ---- solve the memory operand
         let msize = ins_mem_size(&ins);
-        if let Some(p) = &plan {
+        let lea_free = mnem == Mnemonic::Lea && t.below(4) != 0;
+        if let (Some(p), true) = (&plan, lea_free) {
+            // LEA touches no memory: every register/displacement combination is in the domain, so
+            // nothing is solved and wrap-around of every component is reached directly
+            if p.disp_kind != 3 {
+                let full = |r: Register| -> Register {
+                    if r == Register::None || r == Register::RIP || r == Register::EIP {
+                        r
+                    } else if p.addr32 {
+                        Register::EAX + r.number() as u32
+                    } else {
+                        r
+                    }
+                };
+                ins.set_memory_base(full(p.base));
+                ins.set_memory_index(full(p.index));
+                ins.set_memory_index_scale(p.scale);
+                let is_ip = p.base == Register::RIP || p.base == Register::EIP;
+                let d: i64 = match (p.disp_kind, is_ip || p.base == Register::None) {
+                    (0, false) => 0,
+                    (1, false) => t.raw() as i8 as i64,
+                    _ => t.raw() as i32 as i64,
+                };
+                if is_ip {
+                    // iced wants the absolute target for RIP-relative operands
+                    let tgt = (rip as i64 + 7 + d) as u64;
+                    ins.set_memory_displacement64(if p.addr32 { tgt & 0xffff_ffff } else { tgt });
+                    ins.set_memory_displ_size(if p.addr32 { 4 } else { 8 });
+                } else {
+                    ins.set_memory_displacement64(if p.addr32 { d as u64 & 0xffff_ffff } else { d as u64 });
+                    ins.set_memory_displ_size(if p.base == Register::None { if p.addr32 { 4 } else { 8 } } else { match p.disp_kind { 0 => 0, 1 => 1, _ => if p.addr32 { 4 } else { 8 } } });
+                }
+                if p.seg != Register::None {
+                    ins.set_segment_prefix(p.seg);
+                    if p.seg == Register::GS {
+                        gs = t.raw() & 0x0000_7fff_ffff_ffff;
+                    }
+                    if p.seg == Register::FS {
+                        fs = t.raw() & 0x0000_7fff_ffff_ffff;
+                    }
+                }
+                note.push_str("lea-unsolved ");
+            }
+        }
+        if let (Some(p), false) = (&plan, lea_free && plan.as_ref().map(|p| p.disp_kind != 3).unwrap_or(false)) {
             let target = aim_target(&mut *t, p.aim, msize);
             note.push_str(&format!("aim={:?} target={:#x} ", p.aim, target));
             let segbase = match p.seg {
@@ -502,23 +546,56 @@ pub fn gen_case(t: &mut Tape, forms: &[Form], o: &GenOpts) -> Option<NCase> {
                     ins.set_memory_displacement64(a & m);
                     ins.set_memory_displ_size(if p.addr32 { 4 } else { 8 });
                 } else if p.base == Register::None {
-                    // [index*scale + disp32] or [disp32]: the displacement absorbs everything
-                    let k = if p.index != Register::None { tt.below(64) } else { 0 };
-                    let d = (a as i64).wrapping_sub((k as i64).wrapping_mul(p.scale as i64));
-                    let d = if p.addr32 { (d as u64 & 0xffff_ffff) as i64 } else { d };
-                    if !p.addr32 && d as i32 as i64 != d {
+                    // [index*scale + disp32] or [disp32]: solve so that index*scale + disp wraps to `a`
+                    let sc = p.scale as u64;
+                    let (k, d): (u64, u64) = if p.index == Register::None {
+                        (0, a & m)
+                    } else if tt.below(3) == 0 {
+                        // small index, the displacement absorbs the rest
+                        let k = tt.below(64);
+                        (k, a.wrapping_sub(k.wrapping_mul(sc)) & m)
+                    } else if p.addr32 {
+                        // any 32-bit index: the sum wraps at 4 GiB
+                        let k = tt.raw() & 0xffff_ffff;
+                        (k, a.wrapping_sub(k.wrapping_mul(sc)) & 0xffff_ffff)
+                    } else {
+                        // random sign-extended disp32 with (a - d) divisible by the scale; the top bits of
+                        // the index that the scale shifts out are junk
+                        let mut dd = tt.raw() as i32 as i64;
+                        dd -= (dd.wrapping_sub(a as i64)).rem_euclid(sc as i64);
+                        if dd < i32::MIN as i64 {
+                            dd += sc as i64;
+                        }
+                        let k = (a.wrapping_sub(dd as u64)) / sc;
+                        let shift = sc.trailing_zeros();
+                        let k = if shift > 0 { k | (tt.raw() << (64 - shift)) } else { k };
+                        (k, dd as u64)
+                    };
+                    if !p.addr32 && (d as i64) as i32 as i64 != d as i64 {
                         // not reachable with a sign-extended disp32: leave unsolved (both sides fault)
                         note.push_str("unsolved-nobase ");
                     }
-                    ins.set_memory_displacement64(if p.addr32 { d as u64 & 0xffff_ffff } else { d as i32 as i64 as u64 });
+                    ins.set_memory_displacement64(if p.addr32 { d & 0xffff_ffff } else { d as i64 as i32 as i64 as u64 });
                     ins.set_memory_displ_size(if p.addr32 { 4 } else { 8 });
                     if p.index != Register::None {
                         gpr[reg_num(p.index)] = junk_hi(tt, k);
                     }
                 } else if p.base == p.index {
-                    let k = tt.below(64);
-                    let d = (a as i64).wrapping_sub((k as i64) * (1 + p.scale as i64));
-                    ins.set_memory_displacement64(if p.addr32 { d as u64 & 0xffff_ffff } else { d as i32 as i64 as u64 });
+                    // reg*(1+scale) + disp = a: 1+scale is 2, 3, 5 or 9; the odd ones are invertible mod 2^64
+                    let f = 1 + p.scale as u64;
+                    let (k, d): (u64, u64) = if f % 2 == 1 && tt.bool() {
+                        let dd = tt.raw() as i32 as i64 as u64;
+                        // modular inverse of f (Newton iteration)
+                        let mut inv = f;
+                        for _ in 0..6 {
+                            inv = inv.wrapping_mul(2u64.wrapping_sub(f.wrapping_mul(inv)));
+                        }
+                        ((a.wrapping_sub(dd)).wrapping_mul(inv) & m, dd)
+                    } else {
+                        let k = tt.below(64);
+                        (k, a.wrapping_sub(k.wrapping_mul(f)))
+                    };
+                    ins.set_memory_displacement64(if p.addr32 { d & 0xffff_ffff } else { d as i64 as i32 as i64 as u64 });
                     ins.set_memory_displ_size(if p.addr32 { 4 } else { 8 });
                     gpr[reg_num(p.base)] = junk_hi(tt, k);
                 } else {
@@ -791,7 +868,51 @@ fn steer_div(t: &mut Tape, ins: &Instruction, gpr: &mut [u64; 16], patches: &mut
         return;
     }
     // dividend: (hi:lo) in RDX:RAX (or AX for 8-bit)
-    let (hi, lo): (u64, u64) = match cls {
+    let constructive = d != 0 && t.bool();
+    let (hi, lo): (u64, u64) = if constructive {
+        // construct the dividend from a chosen quotient at/around the representable range and a remainder
+        let (hi128, lo128): (u128, u128);
+        if signed {
+            let ds = ((d << (64 - w)) as i64 >> (64 - w)) as i128;
+            let min = -(1i128 << (w - 1));
+            let max = (1i128 << (w - 1)) - 1;
+            let q: i128 = match t.below(10) {
+                0 => min,
+                1 => min + 1,
+                2 => min - 1,
+                3 => max,
+                4 => max + 1,
+                5 => max - 1,
+                6 => -1,
+                7 => 0,
+                8 => 1,
+                _ => (t.raw() as i64 as i128) >> (64 - w),
+            };
+            let prod = q * ds;
+            let rmag = (t.raw() as u128 % ds.unsigned_abs()) as i128;
+            let r = if prod < 0 || (prod == 0 && t.bool()) { -rmag } else { rmag };
+            let dividend = prod + r;
+            let bits = dividend as u128;
+            lo128 = bits & mask as u128;
+            hi128 = (bits >> w) & mask as u128;
+        } else {
+            let top = 1u128 << w;
+            let q: u128 = match t.below(8) {
+                0 => 0,
+                1 => 1,
+                2 => top - 1,
+                3 => top,
+                4 => top - 2,
+                5 => top + 1,
+                _ => t.raw() as u128 & mask as u128,
+            };
+            let dividend = q.wrapping_mul(d as u128).wrapping_add(t.raw() as u128 % d as u128);
+            lo128 = dividend & mask as u128;
+            hi128 = (dividend >> w) & mask as u128;
+        }
+        (hi128 as u64, lo128 as u64)
+    } else {
+        match cls {
         0 => (t.val64() & mask, t.val64() & mask),
         1 => (0, t.val64() & mask),
         2 => {
@@ -804,6 +925,7 @@ fn steer_div(t: &mut Tape, ins: &Instruction, gpr: &mut [u64; 16], patches: &mut
         5 => (if signed { mask } else { 0 }, 1u64 << (w - 1)), // MIN / d
         6 => ((d >> 1) & mask, t.val64() & mask),          // signed boundary region
         _ => ((d >> 1).wrapping_add(t.below(3)).wrapping_sub(1) & mask, if t.bool() { mask } else { 0 }),
+        }
     };
     if w == 8 {
         gpr[0] = (gpr[0] & !0xffff) | ((hi & 0xff) << 8) | (lo & 0xff);
